@@ -222,7 +222,12 @@ class MdSim(object):
                     with open(path, "wb") as f:
                         f.write(body)
                 key = path
-                self.store.load("local", path)
+                if ev.get("via_imp"):
+                    # the route a configuration file takes: MetadataStore.imp() with a loader class
+                    self.store.imp([{"class": "saml2_tophat.mdstore.MetaDataFile", "metadata": [(path,)]}])
+                    self.count("load.via-imp")
+                else:
+                    self.store.load("local", path)
             elif typ == "loader":
                 self.loader_content[sid] = body
 
@@ -256,7 +261,12 @@ class MdSim(object):
                     kw["cert"] = cert_file(cc)
                 if doc["wrapper"] == "entity":
                     kw["node_name"] = "%s:EntityDescriptor" % MD
-                self.store.load("remote", **kw)
+                if ev.get("via_imp") and doc["wrapper"] != "entity":
+                    spec = (url, kw["cert"]) if "cert" in kw else (url,)
+                    self.store.imp([{"class": "saml2_tophat.mdstore.MetaDataExtern", "metadata": [spec]}])
+                    self.count("load.via-imp")
+                else:
+                    self.store.load("remote", **kw)
             rec["loaded"] = True
         except Exception as e:
             rec["loaded"] = False
@@ -662,6 +672,8 @@ def generate(seed, prop, tier):
             if wrapper == "entities" and r.chance(0.3):
                 doc["valid_until"] = r.pick([-86400, -1, 0, 1, 3600])
             ev = {"k": "load", "src": sid, "type": typ, "doc": doc, "dt": r.pick([0, 1, 1.5, 30]), "sub": r.getrandbits(32)}
+            if typ in ("file", "remote") and r.chance(0.3):
+                ev["via_imp"] = True
             if typ == "remote" and wrapper == "entities" and r.chance(0.6):
                 ev["sign"] = r.randrange(12)
                 ev["cert_conf"] = r.pick([ev["sign"], ev["sign"], (ev["sign"] + 1) % 12, None])
